@@ -328,7 +328,7 @@ impl Runner {
         match c {
             Call::Add(v) => *v < m.cap,
             Call::Bind { a, b, l, parsed } => {
-                *a < m.cap && *b < m.cap && m.can_bind(*a, *b, l) && (!*parsed || l.parsed().is_ok())
+                *a < m.cap && *b < m.cap && m.can_bind(*a, *b, l) && (!*parsed || l.parse_roundtrips())
             }
             Call::Put(v, _) | Call::Data(v) | Call::Kid(v, _) | Call::Kids(v) => m.present(*v),
             Call::NextId | Call::NextIdAdd => m.allocator_room() >= 1,
@@ -340,7 +340,7 @@ impl Runner {
                     && plan_merge(m, h, *left).is_some_and(|k| k <= m.allocator_room())
             }
             Call::ScriptNew { parent, l } => {
-                if !m.present(*parent) || m.allocator_room() < 1 || l.parsed().is_err() {
+                if !m.present(*parent) || m.allocator_room() < 1 || !l.parse_roundtrips() {
                     return false;
                 }
                 let pv = m.get(*parent);
